@@ -112,12 +112,24 @@ struct Found {
 /// The engine's plan, optionally scaled by VERIF_PLAN_SCALE (used for the slow sanitizer build).
 fn scaled_plan(engine: &dyn Engine, prop: &str, tier: &str) -> Vec<(String, u64)> {
     let scale: f64 = std::env::var("VERIF_PLAN_SCALE").ok().and_then(|s| s.parse().ok()).unwrap_or(1.0);
-    // VERIF_SCEN_FILTER keeps only the scenarios whose name contains the given text
-    let filter = std::env::var("VERIF_SCEN_FILTER").ok();
+    // VERIF_SCEN_FILTER = name[=runs][,name[=runs]...] keeps only the scenarios whose name
+    // contains one of the given texts, optionally with another number of runs
+    let filter: Option<Vec<(String, Option<u64>)>> = std::env::var("VERIF_SCEN_FILTER").ok().map(|f| {
+        f.split(',')
+            .filter(|p| !p.is_empty())
+            .map(|p| match p.split_once('=') {
+                Some((n, c)) => (n.to_string(), c.parse().ok()),
+                None => (p.to_string(), None),
+            })
+            .collect()
+    });
     engine
         .plan(prop, tier)
         .into_iter()
-        .filter(|(s, _)| filter.as_ref().map(|f| s.contains(f.as_str())).unwrap_or(true))
+        .filter_map(|(s, n)| match &filter {
+            None => Some((s, n)),
+            Some(fs) => fs.iter().find(|(name, _)| s.contains(name.as_str())).map(|(_, c)| (s.clone(), c.unwrap_or(n))),
+        })
         .map(|(s, n)| (s, if scale == 1.0 { n } else { ((n as f64 * scale) as u64).max(1) }))
         .collect()
 }
